@@ -106,7 +106,22 @@ func (h headerReplacements) Del(key string) {
 // static upstreams for the proxy middleware. The host string parameter,
 // if not empty, is used for setting the upstream Host header for the
 // health checks if the upstream header config requires it.
+// The health checks of the upstreams are started.
 func NewStaticUpstreams(c casketfile.Dispenser, host string) ([]Upstream, error) {
+	upstreams, err := parseStaticUpstreams(c, host)
+	if err != nil {
+		return upstreams, err
+	}
+	for _, upstream := range upstreams {
+		upstream.(*staticUpstream).startHealthChecks()
+	}
+	return upstreams, nil
+}
+
+// parseStaticUpstreams does the work of NewStaticUpstreams except for
+// starting the health checks, so that a configuration which is merely
+// validated, or which is rejected later, leaves nothing running.
+func parseStaticUpstreams(c casketfile.Dispenser, host string) ([]Upstream, error) {
 	var upstreams []Upstream
 	for c.Next() {
 
@@ -205,15 +220,23 @@ func NewStaticUpstreams(c casketfile.Dispenser, host string) ([]Upstream, error)
 					upstream.HealthCheck.Host = strings.Replace(hostHeader, "{host}", host, -1)
 				}
 			}
-			upstream.wg.Add(1)
-			go func() {
-				defer upstream.wg.Done()
-				upstream.HealthCheckWorker(upstream.stop)
-			}()
 		}
 		upstreams = append(upstreams, upstream)
 	}
 	return upstreams, nil
+}
+
+// startHealthChecks starts the health check worker of u if
+// health checks are configured. Stop ends it.
+func (u *staticUpstream) startHealthChecks() {
+	if u.HealthCheck.Path == "" {
+		return
+	}
+	u.wg.Add(1)
+	go func() {
+		defer u.wg.Done()
+		u.HealthCheckWorker(u.stop)
+	}()
 }
 
 func (u *staticUpstream) From() string {
